@@ -20,11 +20,11 @@ LEVEL = "model_checking"
 BIN_OPS = ["add", "sub", "mul", "floordiv", "mod", "and", "or", "xor", "lsh", "rsh"]
 VAR_FMTS = list("bBhHiIqQ")
 LEAVES = [("var", f) for f in VAR_FMTS] + [("local", f) for f in "bHiQ"] + \
-         [("reg", k) for k in ("r", "sr", "w", "sw")]
+         [("reg", k) for k in ("r", "sr", "w", "sw")] + [("hash", f) for f in "BiQ"]
 CONSTS = [1, 3, -1, -7, 0, 31, 2 ** 31 - 1, -2 ** 31, 2 ** 31, 2 ** 32 - 1, 2 ** 32, 2 ** 40 + 5,
           -(2 ** 40), 2 ** 63 - 1, -2 ** 63, 100000]
 DSTS = [("var", f) for f in VAR_FMTS] + [("local", "I"), ("local", "q"), ("reg", "r"), ("reg", "sr"),
-                                          ("reg", "w"), ("reg", "sw")]
+                                          ("reg", "w"), ("reg", "sw"), ("hash", "q"), ("hash", "I")]
 
 
 def leaf_fmt(lf):
@@ -139,25 +139,34 @@ def run(ctx):
     nvec = 4 if ctx.quick else 7
     cases, meta, refused = [], [], []
     vrng = random.Random(77)
-    for tree, dst in stmts:
+    for si, (tree, dst) in enumerate(stmts):
+        # every fourth statement sits inside the block of a temporary (which then occupies a register, usually r0)
+        scope = (None, "stmp", None, None, None, "tmp", None, None)[si % 8]
         try:
-            st = G.statement(tree, dst)
+            st = G.statement(tree, dst, scope=scope)
         except G.NotGenerated as e:
             refused.append((repr(tree), repr(dst), str(e)[:120]))
             continue
         for vals in vectors(vrng, st, tree, nvec):
             cases.append(G.case(st, vals))
-            meta.append(dict(tree=tree, dst=dst, values=vals, depth=G.depth_of(tree)))
+            meta.append(dict(tree=tree, dst=dst, values=vals, depth=G.depth_of(tree), scope=scope))
     if not cases:
         raise T.MachineryError("no C01 case could be built")
     wd = ctx.workdir()
     verdict = {}
-    CH = 6000
-    for start in range(0, len(cases), CH):
+    PAR = 12                              # cases are independent: several single-worker TLC processes side by side
+    CH = max(1, -(-len(cases) // PAR))
+
+    def chunk(start):
         path = os.path.join(wd, f"cases{start}.json")
         json.dump(cases[start:start + CH], open(path, "w"))
-        res = T.run(wd, "Codegen", "Codegen.cfg", timeout=3000, deadlock=False, env={"TRACE_FILE": path})
+        res = T.run(wd, "Codegen", "Codegen.cfg", timeout=3000, deadlock=False, env={"TRACE_FILE": path}, workers=1)
         os.remove(path)
+        return start, res
+    from concurrent.futures import ThreadPoolExecutor
+    with ThreadPoolExecutor(PAR) as ex:
+        results = list(ex.map(chunk, range(0, len(cases), CH)))
+    for start, res in results:
         if res.error:
             raise T.MachineryError("Codegen failed:\n" + res.error[:3000])
         ctx.tlc_stats(res)
